@@ -101,6 +101,7 @@ func genC20(r *kernel.Rand) *kernel.Scenario {
 		// common: a swap leaves each party empty on one ledger). bal<j> packs the
 		// two participants' balances of asset j.
 		st.A["sec"], st.A["idx"], st.A["subs"] = int64(r.Intn(2)), int64(r.Intn(2)), int64(r.Weighted([]int{3, 1}))
+		st.A["cancel_us"] = int64([]int{0, 0, 0, 0, 10, 150, 3000}[r.Intn(7)]) // >0: the caller cancels within that time
 		for j := 0; j < n; j++ {
 			st.A["bal"+strconv.Itoa(j)] = int64([]int{0, 0, 5, 9}[r.Intn(4)]*16 + []int{0, 0, 5, 9}[r.Intn(4)])
 		}
